@@ -429,6 +429,82 @@ func TestVerifC05CLI(t *testing.T) {
 				}
 			}
 		}
+		// a FAMILY database: earlier versions of the same function (an edited body; the same body
+		// with another literal) were indexed under the same --name and the same function name before
+		// it, so several signatures share one name; the alert for the signature created from THIS
+		// function (identified by its ID) must still be there, with full confidence
+		var earlier []string
+		for _, v := range progfam.Edits(b) {
+			if v.Op != "M-manual" && progfam.Compiles(v.Src) == nil {
+				earlier = append(earlier, progfam.Rename(v.Src, v.Name, "Target"))
+				break
+			}
+		}
+		for _, v := range vs {
+			if v.Kind == "literal" && progfam.Compiles(v.Src) == nil {
+				earlier = append(earlier, progfam.Rename(v.Src, v.Name, "Target"))
+				break
+			}
+		}
+		for _, ext := range []string{".db", ".json"} {
+			db := filepath.Join(d, "family"+ext)
+			for ei, src := range earlier {
+				ed := filepath.Join(d, fmt.Sprintf("earlier%d", ei))
+				os.MkdirAll(ed, 0o755)
+				os.WriteFile(filepath.Join(ed, "m.go"), []byte(progfam.RenderFile([]string{src})), 0o644)
+				if out, err := exec.Command(sfw, "index", "--name", "FAM", "--db", db, filepath.Join(ed, "m.go")).CombinedOutput(); err != nil {
+					r.Fail("sfw index (earlier version %d): %v\n%s", ei, err, out)
+					return
+				}
+			}
+			out, err := exec.Command(sfw, "index", "--name", "FAM", "--db", db, filepath.Join(d, "orig", "m.go")).Output()
+			if err != nil {
+				r.Fail("sfw index (family): %v\n%s", err, out)
+				return
+			}
+			var iv struct {
+				Indexed []detection.Signature `json:"indexed"`
+			}
+			json.Unmarshal(out, &iv)
+			ownID := ""
+			for _, sg := range iv.Indexed {
+				if sg.Name == "FAM_Target" {
+					ownID = sg.ID
+				}
+			}
+			if ownID == "" {
+				r.Fail("sfw index (family) did not report a signature FAM_Target: %s", out)
+				return
+			}
+			for _, thr := range []string{"0.5", "0.75", "1.0"} {
+				args := []string{"scan", "--no-sandbox", "--db", db, "--threshold", thr, filepath.Join(d, "copy", "m.go")}
+				cmd := exec.Command(sfw, args...)
+				var stdout strings.Builder
+				cmd.Stdout = &stdout
+				rerr := cmd.Run()
+				r.Eval()
+				key := fmt.Sprintf("cli/%s/%s/family/thr=%s", b.ID, ext, thr)
+				var so struct {
+					Alerts []detection.ScanResult `json:"alerts"`
+				}
+				if jerr := json.Unmarshal([]byte(stdout.String()), &so); jerr != nil {
+					r.Violate(key+"/scan-failed", fmt.Sprintf("family database of %s: sfw %v produced no report (exit: %v)", b.ID, args, rerr), map[string]interface{}{"base": b.ID})
+					continue
+				}
+				r.Nontrivial(key)
+				found := false
+				var seen []string
+				for _, al := range so.Alerts {
+					seen = append(seen, fmt.Sprintf("%s/%s/%s/%v", al.MatchedFunction, al.SignatureName, al.SignatureID, al.Confidence))
+					if al.SignatureID == ownID && al.Confidence == 1.0 && al.MatchedFunction == "Other" {
+						found = true
+					}
+				}
+				if !found {
+					r.Violate(key, fmt.Sprintf("%d earlier version(s) of %s were indexed under the same --name and function name, then the function itself (signature %s); sfw scan --threshold %s of its renamed copy raises no alert for %s with confidence 1.0; alerts: %v", len(earlier), b.ID, ownID, thr, ownID, seen), map[string]interface{}{"base": b.ID})
+				}
+			}
+		}
 		r.Sample(map[string]interface{}{"base": b.ID, "flow": "sfw index orig/m.go -> sfw scan copy/m.go (pebble and json, threshold 1.0 and --exact)"})
 	}
 }
